@@ -1,7 +1,67 @@
-import PvlModel.Model.Spec
+import PvlModel.Lemmas.ParserReals
+import PvlModel.Lemmas.ParseSpec
 /-!
-# C18
-(theorems are added below as they are proved; see DESIGN §5)
+# C18 — substitute classes: what reaches the caller's real-number class
+
+The model carries a real number as the text that is handed to `real_cls` (`Val.real text`), so that the
+question "does `Decimal` keep all written digits" is a statement about that text.  Containers, quantities
+and their classes are constructed by `module_class(...)`, `group_class(...)`, `quantity_cls(...)` calls at
+the places where the model builds `.cont` / `.quant`: that part is observed on the real code (every node of
+the result is inspected, at every depth) and has no theorem.
+
+* `C18_real_text_unaltered` — a token that decodes to a real decodes to its own text, has `float()`'s
+  syntax and is not an integer literal (any decoder class);
+* `C18_int_stays_int` — an integer literal is an `int`, the real-number class is never consulted;
+* `C18_reals_are_token_texts` — **every** real, at every depth of the module any parser configuration
+  returns for any text, is the unaltered text of a token the lexer produced for that text, in
+  `float()`'s syntax.
 -/
 namespace Pvl
+open Py P
+
+/-- **C18, the text of a real is handed over unaltered** (value level, every decoder class) -/
+theorem C18_real_text_unaltered (d : Dec) (s t : Str) (h : decodeSimple d s = .ok (.real t)) :
+    t = s ∧ floatOk s = true ∧ int10 s = none :=
+  decodeSimple_reals d s (.real t) h t (by simp [Val.reals])
+
+/-- **C18, integers stay int**: an integer literal decodes to an `int` — `decode_decimal` of the model
+    takes no real-number class, and the correspondence runs the real decoders with `float`, `Decimal`,
+    `Fraction` and a text-keeping class against it -/
+theorem C18_int_stays_int (s : Str) (n : Int) (h : int10 s = some n) : decodeDecimal s = some (.int n) := by
+  simp [decodeDecimal, h]
+
+/-- **C18, every real at every depth is an unaltered token text**: for every grammar, decoder, parser class
+    and text, each real in the returned module (inside sequences, sets, units expressions, nested blocks)
+    is the text of one of the tokens the lexer made from the text, has `float()`'s syntax and is not an
+    integer literal. -/
+theorem C18_reals_are_token_texts (g : Grammar) (d : Dec) (kind : ParserKind) (prior : List Int) (text : Str)
+    (m : Items) (h : (parseWith g d kind prior text).outcome = .ok m) :
+    ∀ x ∈ realsI m, (∃ t ∈ (lexAll g d (docOf kind text)).1, t.text = x) ∧ floatOk x = true ∧ int10 x = none := by
+  revert h
+  unfold parseWith docOf
+  simp only
+  generalize (if kind == ParserKind.omni then omniPrepass text else text) = doc
+  generalize lexAll g d doc = lx
+  obtain ⟨toks, tail⟩ := lx
+  simp only
+  have hs := triple_elim _ _ _ _
+    (moduleLoop_rl ⟨g, d, kind, doc, tail⟩ (toks.map (·.text)) (fuelFor (toks.length + 2)) [] (by simp))
+    ⟨⟨toks, none, none, false⟩, [], [], none, false⟩
+    (by simp only [TI]; exact ⟨fun t ht => List.mem_map.mpr ⟨t, ht, rfl⟩, by simp⟩)
+  revert hs
+  generalize (moduleLoop ⟨g, d, kind, doc, tail⟩ [] (fuelFor (toks.length + 2))).run.run
+    ⟨⟨toks, none, none, false⟩, [], [], none, false⟩ = res
+  obtain ⟨r, st'⟩ := res
+  intro hs h
+  simp only at h
+  subst h
+  intro x hx
+  obtain ⟨h1, h2, h3⟩ := hs.2 x hx
+  obtain ⟨t, ht, rfl⟩ := List.mem_map.mp h1
+  exact ⟨⟨t, ht, rfl⟩, h2, h3⟩
+
+/-- non-vacuity: a nested value with two reals -/
+example : (Val.cont .group [([97], .seq [.real [49, 46, 53], .quant (.real [50, 46, 48]) [109]])]).reals =
+    [[49, 46, 53], [50, 46, 48]] := by decide
+
 end Pvl
